@@ -34,8 +34,8 @@ func (in *Interp) timeParts(v Value) (set *Term, ns *Term, loc Value) {
 
 // timeKey orders instants with the zero Time first.
 func (in *Interp) timeKey(v Value) *Term {
-	set, ns, _ := in.timeParts(v)
-	return in.tt.Ite(set, ns, in.tt.BV(64, 1<<63))
+	set, _, _ := in.timeParts(v)
+	return in.tt.Ite(set, in.timeNS(v), in.tt.BV(64, 1<<63))
 }
 
 func recvTime(in *Interp, v Value) Value {
@@ -73,21 +73,21 @@ func init() {
 		return in.timeVal(tt.Bin(OpAdd, tt.Bin(OpMul, sec, tt.BV(64, 1_000_000_000)), nsec))
 	}
 	intrinsics["(time.Time).UnixNano"] = func(in *Interp, fr *frame, args []Value) Value {
-		set, ns, _ := in.timeParts(args[0])
-		return in.tt.Ite(set, ns, in.tt.BV(64, zeroTimeBits))
+		set, _, _ := in.timeParts(args[0])
+		return in.tt.Ite(set, in.timeNS(args[0]), in.tt.BV(64, zeroTimeBits))
 	}
 	intrinsics["(time.Time).IsZero"] = func(in *Interp, fr *frame, args []Value) Value {
 		set, _, _ := in.timeParts(args[0])
 		return in.tt.Not(set)
 	}
 	intrinsics["(time.Time).Before"] = func(in *Interp, fr *frame, args []Value) Value {
-		return in.tt.Cmp(OpSlt, in.timeKey(args[0]), in.timeKey(args[1]))
+		return in.timeLess(args[0], args[1], false)
 	}
 	intrinsics["(time.Time).After"] = func(in *Interp, fr *frame, args []Value) Value {
-		return in.tt.Cmp(OpSlt, in.timeKey(args[1]), in.timeKey(args[0]))
+		return in.timeLess(args[1], args[0], false)
 	}
 	intrinsics["(time.Time).Equal"] = func(in *Interp, fr *frame, args []Value) Value {
-		return in.tt.Eq(in.timeKey(args[0]), in.timeKey(args[1]))
+		return in.timeEq(args[0], args[1])
 	}
 	intrinsics["(time.Time).Compare"] = func(in *Interp, fr *frame, args []Value) Value {
 		a, b := in.timeKey(args[0]), in.timeKey(args[1])
@@ -95,21 +95,15 @@ func init() {
 		return tt.Ite(tt.Cmp(OpSlt, a, b), tt.BV(64, ^uint64(0)), tt.Ite(tt.Eq(a, b), tt.BV(64, 0), tt.BV(64, 1)))
 	}
 	intrinsics["(time.Time).Sub"] = func(in *Interp, fr *frame, args []Value) Value {
-		_, a, _ := in.timeParts(args[0])
-		_, b, _ := in.timeParts(args[1])
-		return in.tt.Bin(OpSub, a, b)
+		return in.tt.Bin(OpSub, in.timeNS(args[0]), in.timeNS(args[1]))
 	}
 	intrinsics["(time.Time).Add"] = func(in *Interp, fr *frame, args []Value) Value {
-		set, a, loc := in.timeParts(args[0])
-		_ = set
 		s := args[0].(Struct)
-		return Struct{s[0], in.tt.Bin(OpAdd, a, args[1].(*Term)), loc}
+		return Struct{s[0], in.tt.Bin(OpAdd, in.timeNS(args[0]), args[1].(*Term)), s[2]}
 	}
 	intrinsics["time.Since"] = func(in *Interp, fr *frame, args []Value) Value {
 		now := intrinsics["time.Now"](in, fr, nil)
-		_, a, _ := in.timeParts(now)
-		_, b, _ := in.timeParts(args[0])
-		return in.tt.Bin(OpSub, a, b)
+		return in.tt.Bin(OpSub, in.timeNS(now), in.timeNS(args[0]))
 	}
 	for _, n := range []string{"(time.Time).UTC", "(time.Time).Local", "(time.Time).Round", "(time.Time).Truncate"} {
 		name := n
